@@ -221,6 +221,24 @@ class Oracle:
                 self.ref.pop(dk)
             self.hit("destroy")
             return None if reply == "ok" else "destroy: %s" % reply
+        if name == "wb.keys":
+            present = set(k for (d, k) in self.ref if d == a[0])
+            for part in reply.split():
+                mi, rest = part.split(":", 1)
+                p, b = rest.split(";")
+                for kind, lst in (("primary", p[2:]), ("backup", b[2:])):
+                    for k in ([] if lst == "-" else lst.split(",")):
+                        if k not in present:
+                            return "%s holds a %s entry %s of DMap %s that should not exist (destroyed or deleted)" % (mi, kind, k, a[0])
+            self.hit("wb_keys_checked")
+            return None
+        if name == "c.scanall":
+            present = sorted(k for (d, k) in self.ref if d == a[2] and self.live((d, k)) is not None)
+            got = reply.split()[1:]
+            if sorted(got) != present:
+                return "iterator over %s via %s/m%s yielded %s, present keys %s" % (a[2], a[0], a[1], sorted(got)[:10], present[:10])
+            self.hit("iterator_checked")
+            return None
         if name == "wb":
             dk = (a[0], a[1])
             route = self.route.get(dk)
@@ -283,8 +301,9 @@ class Gen:
         parts = r.choice([3, 3, 7]) if tsize == 512 else r.choice([7, 23])
         yield "c.new n=%d r=%d w=%d rq=%d parts=%d tsize=%d rr=%d ttl_ms=%d" % (
             n, R, W, RQ, parts, tsize, r.choice([0, 0, 1]), ttl)
-        dms = ["dm", "dm2"]
-        keys = [b"k%d" % i for i in range(r.choice([2, 4, 8]))]
+        dms = getattr(self, "dms", ["dm", "dm2"])
+        keys = getattr(self, "keyset", None) or [b"k%d" % i for i in range(r.choice([2, 4, 8]))]
+        pdestroy = getattr(self, "pdestroy", 0.005)
         ver = 0
         for _ in range(nops):
             dm = r.choice(dms)
@@ -368,9 +387,17 @@ class Gen:
                         yield "c.unlock %s %d %s %s %s" % (lp, m, dm, lkey, tok)
                     else:
                         yield "c.lease %s %d %s %s %s %d" % (lp, m, dm, lkey, tok, r.choice([100, 5000]))
-            elif w < 0.955:
-                yield "c.destroy %s %d %s" % (r.choice(["emb", "cli", "raw"]), m, r.choice(dms))
-            elif w < 0.985:
+            elif w < 0.95 + pdestroy:
+                dd = r.choice(dms)
+                yield "c.destroy %s %d %s" % (r.choice(["emb", "cli", "raw"]), m, dd)
+                yield "wb.keys %s" % dd
+                yield "c.scanall %s %d %s" % (r.choice(["emb", "cli"]), r.randrange(n), dd)
+                # the DMap stays usable
+                k2 = hx(r.choice(keys))
+                yield "c.own %s %s" % (dd, k2)
+                yield "c.put %s %d %s %s %s" % (r.choice(["emb", "cli"]), r.randrange(n), dd, k2, hx(b"after"))
+                yield "c.get %s %d %s %s" % (r.choice(["emb", "cli", "raw"]), r.randrange(n), dd, k2)
+            elif w < 0.985 + pdestroy:
                 # several commands queued in one pipeline, one Exec, then every future read back
                 cmds = []
                 for _ in range(r.randint(2, 7)):
